@@ -3,9 +3,13 @@ request dispatch and reply correlation (C08), message layouts (C19)."""
 F = "rpyc/core/protocol.py::Connection."
 SOCK = "self._channel.stream.sock"
 # everything a message exchange on this connection may touch (frame of the I/O paths)
-CONN_IO = ["self._send_queue", "self._sendlock.held", SOCK, SOCK + ".outbuf", SOCK + ".inbuf", SOCK + ".shut_attempted",
-           SOCK + ".closed", SOCK + ".failed", "self._seqcounter.nxt", "self._local_objects._dict",
-           "self._request_callbacks", "self._closed", "self._last_traceback"]
+CONN_IO_OK = ["self._send_queue", "self._sendlock.held", SOCK + ".outbuf", SOCK + ".inbuf", "self._seqcounter.nxt",
+              "self._local_objects._dict", "self._request_callbacks", "self._closed", "self._last_traceback"]
+CONN_IO = CONN_IO_OK + [SOCK, SOCK + ".shut_attempted", SOCK + ".closed", SOCK + ".failed"]
+# an exceptional exit: either the transport is still open (same socket object) or it died and the stream is closed
+MAYBE_DEAD = [{"label": "transport open", "sets": {"self._channel.stream.sock": "old(self._channel.stream.sock)"},
+               "modifies": CONN_IO_OK},
+              {"label": "transport died", "sets": {"self._channel.stream.sock": "ClosedFile"}, "modifies": CONN_IO}]
 OPEN = [SOCK + " is not ClosedFile", "not %s.failed" % SOCK]
 P = ["C08", "C12", "C01", "C19"]
 
@@ -207,11 +211,24 @@ def register_requests(S):
                    " head(items(callee_result('load', 0))) == MSG_EXCEPTION and "
                    " same(callee_arg('_seq_request_callback', 0, 'obj'), callee_result('_unbox_exc', 0)) and "
                    " same(callee_arg('_unbox_exc', 0, 'raw'), head(tail(tail(items(callee_result('load', 0))))))))", P8)},
-               raises={"BaseException": {"props": P8, "modifies": CONN_IO, "state": [
+               raises={"BaseException": {"props": P8, "variants": MAYBE_DEAD, "state": [
                    "n_callees('_dispatch_request') + n_callees('_seq_request_callback') <= 1"]}},
-               modifies=CONN_IO)
+               modifies=CONN_IO_OK)
     # ---- outgoing: the callback is registered under a fresh number BEFORE the request is sent --------------------
     S.contract(F + "_async_request", params={"self": "obj:Connection", "handler": "val", "args": "val", "callback": "val"},
+               dispatch=[(SOCK + " is ClosedFile", "closed"), (None, "default")],
+               behaviours={"closed": dict(
+                   # issued after the connection's transport is gone: EOFError, and no callback stays registered
+                   init=dict(QUIET, **{"self._channel.stream.sock": "ClosedFile"}), noreturn=True,
+                   requires=["plain(handler)", "sized(handler)"],
+                   raises={"EOFError": {"props": ["C11", "C08"], "modifies": ["self._request_callbacks", "self._seqcounter.nxt",
+                                                                              "self._local_objects._dict", "self._send_queue"],
+                                        "state": ["n_callees('_get_seq_id') == 1 and "
+                                                  "not haskey(self._request_callbacks, callee_result('_get_seq_id', 0)) and "
+                                                  "unchanged_except(self._request_callbacks, callee_result('_get_seq_id', 0))"]},
+                           "BaseException": {"props": ["C11"], "modifies": ["self._request_callbacks", "self._seqcounter.nxt",
+                                                                            "self._local_objects._dict", "self._send_queue"]}},
+                   modifies=[])},
                init=QUIET, requires=OPEN + ["plain(handler)", "sized(handler)"],
                ensures={"registered_then_sent": (
                    "n_callees('_get_seq_id') == 1 and n_callees('_box') == 1 and n_callees('_send') == 1 and n_events() == 3 and "
@@ -223,12 +240,12 @@ def register_requests(S):
                    "haskey(self._request_callbacks, callee_result('_get_seq_id', 0)) and "
                    "same(self._request_callbacks[callee_result('_get_seq_id', 0)], callback) and "
                    "unchanged_except(self._request_callbacks, callee_result('_get_seq_id', 0))", P8)},
-               raises={"BaseException": {"props": P8 + ["C11"], "modifies": CONN_IO, "state": [
+               raises={"BaseException": {"props": P8 + ["C11"], "variants": MAYBE_DEAD, "state": [
                    # a failed send leaves no callback behind (for every Exception; a BaseException is not caught)
                    "implies(not exc_is(exc, 'Exception') == False, n_callees('_get_seq_id') == 1 and "
                    "not haskey(self._request_callbacks, callee_result('_get_seq_id', 0)) and "
                    "unchanged_except(self._request_callbacks, callee_result('_get_seq_id', 0)))"]}},
-               modifies=CONN_IO)
+               modifies=CONN_IO_OK)
 
 
 def register_api(S):
@@ -253,8 +270,8 @@ def register_api(S):
                    "expiry_iff_timeout_given": (
                    "result._ttl.finite == (not isnone(tmo)) and implies(result._ttl.finite, "
                    "old(now()) + num_of(tmo) <= result._ttl.tmax and result._ttl.tmax <= now() + num_of(tmo))", P)},
-               raises={"BaseException": {"props": P, "modifies": CONN_IO + ["kwargs"]}},
-               modifies=CONN_IO + ["kwargs"])
+               raises={"BaseException": {"props": P, "variants": [dict(v, modifies=v["modifies"] + ["kwargs"]) for v in MAYBE_DEAD]}},
+               modifies=CONN_IO_OK + ["kwargs"])
     S.contract(F + "sync_request", params={"self": "obj:Connection", "handler": "val", "args": "vl"}, result="val",
                init={"self._sendlock.held": "False", "self._send_queue.items": "nil()"}, clock=True,
                requires=OPEN + ["plain(handler)", "sized(handler)", "haskey(self._config, 'sync_request_timeout')",
@@ -268,7 +285,7 @@ def register_api(S):
                    "same(callee_arg('async_request', 0, 'tmo'), self._config['sync_request_timeout']) and "
                    "callee_arg('value', 0, 'self') is callee_result('async_request', 0) and "
                    "same(result, callee_result('value', 0))", P)},
-               raises={"BaseException": {"props": P, "modifies": CONN_IO, "state": [
+               raises={"BaseException": {"props": P, "variants": MAYBE_DEAD, "state": [
                    "n_callees('async_request') == 1 and "
                    "same(callee_arg('async_request', 0, 'tmo'), self._config['sync_request_timeout'])"]}},
-               modifies=CONN_IO)
+               modifies=CONN_IO_OK)
